@@ -182,6 +182,7 @@ def run(ctx, F):
         ctx.ok("F9-call-chain", "meta.call and direct calls both run Function::call", {"meta": meta_call[:2], "direct": direct[:2]})
     else:
         ctx.fail("F9-call-chain", "meta.call and direct calls both run Function::call", f"callers of Function::call: meta={meta_call}, direct={direct}")
+    lookup_order(ctx, prog, S)
     ctx.explanation = ("Alias tables read from the expose() functions (AST) and compared with the documented global/module pairs; registry of built-in registrations from MIR (name -> implementing closure); "
                        "for pairs implemented twice: kernel operations of the module form must be reachable from the global form and shared kernel call sites must agree on argument provenance.")
 
@@ -259,3 +260,49 @@ def sibling(ctx, prog, S, key, gimpl, mimpl, reviewed, tree=None):
             ctx.reviewed("F9-sibling-pair", k2, reviewed[k2])
         else:
             ctx.fail("F9-sibling-pair", k2, f"`{key}` is implemented twice ({gimpl} / {mimpl}) and the two bodies differ: {d}")
+
+
+GET_BUILTIN = "<sass::functions::Function>::get_builtin"
+
+
+def lookup_order(ctx, prog, S):
+    """A name is resolved in the scope chain first and in the table of global built-ins only as a
+    fallback — in direct calls and in meta.get-function / call() alike (otherwise a module member
+    merged with `as *`, or a user function, resolves differently through meta.call)."""
+    users = [b for b in prog.bodies.values() if any(mir.callee_name(t) == GET_BUILTIN for bi, t in b.calls())]
+    n = 0
+    for b in sorted(users, key=lambda b: b.def_):
+        n += 1
+        key = f"{keyname(b, prog)}|get_builtin is a fallback of Scope::get_function"
+        ok = False
+        parent = b.raw.get("parent")
+        if b.kind == "Closure" and parent in prog.bodies:
+            pb = prog.bodies[parent]
+            for bi, t in pb.calls():
+                nm = mir.callee_name(t) or ""
+                if nm.endswith("Option<T>>::or_else") and any(b.def_ in defs for defs in t.get("arg_defs", [])):
+                    recv = repr(S.operand(pb, t["args"][0]))
+                    if "Scope>::get_function" in recv:
+                        ok = True
+        else:
+            dom = b.dominators()
+            for bi, t in b.calls():
+                if mir.callee_name(t) != GET_BUILTIN:
+                    continue
+                for d in dom.get(bi, ()):
+                    tm = b.blocks[d]["term"]
+                    if tm["k"] == "switch" and tm.get("discr_of") and "Scope>::get_function" in repr(S.place(b, tm["discr_of"])):
+                        names = {nm: tg for _, tg, nm in tm["targets"]}
+                        none_t = names.get("None", tm["otherwise"] if "Some" in names else None)
+                        if none_t is not None and (none_t in dom.get(bi, ()) or none_t == bi):
+                            ok = True
+        if ok:
+            ctx.ok("F9-lookup-order", key, None)
+        else:
+            ctx.fail("F9-lookup-order", key, f"{b.def_} consults the table of global built-ins without first failing to find the name in the scope chain: functions reached through meta.get-function / call() can differ from the ones a direct call reaches", where=b.where())
+    ctx.floor("users of Function::get_builtin", n, 2)
+
+
+def keyname(b, prog):
+    from lib.keys import fn_key
+    return fn_key(b.def_, prog)
